@@ -1,5 +1,6 @@
 """C11 — In a batch, a failing row is reported in place and does not affect other rows."""
 import copy
+import os
 import warnings
 
 import numpy as np
@@ -21,7 +22,7 @@ BEADS_FAULTS = {'file_not_found': 'not found', 'too_few_events': 'lower than 400
 FAULT_OF_MESSAGE = [('not found', 'fileNotFound'), ('lower than 400', 'tooFewEvents'), ('gate fraction', 'gateFraction'), ('not recognized', 'unitsNotRecognized'),
                     ('not available', 'mefNotAvailable'), ('no standard curve', 'noCurveForChannel'), ('Instruments for', 'otherInstrument'),
                     ('Amplification type', 'amplificationType'), ('Detector voltage', 'detectorVoltage')]
-FILES = {'s0.fcs': 600, 's1.fcs': 600, 'nope.fcs': None, 'small.fcs': 120, 'volt.fcs': 600, 'volt0.fcs': 600, 'lin.fcs': 600, 'n380.fcs': 380, 'n399.fcs': 399, 'n400.fcs': 400, 'linf.fcs': 600, 't0.fcs': 600, 't1.fcs': 600}
+FILES = {'s0.fcs': 600, 's1.fcs': 600, 'nope.fcs': None, 'small.fcs': 120, 'volt.fcs': 600, 'volt0.fcs': 600, 'lin.fcs': 600, 'n380.fcs': 380, 'n399.fcs': 399, 'n400.fcs': 400, 'linf.fcs': 600, 't0.fcs': 600, 't1.fcs': 600, 'decoy.fcs': None}
 UNIT_CELLS = [None, None, 'MEF', 'mef', 'Mef', 'a.u.', 'AU', 'RFI', 'rfi', 'Channel', 'furlongs', 'MEFL', '', 'a.u', '.au', 'u', 'rf', 'me', 'hannel', ' ']
 
 
@@ -203,6 +204,7 @@ class Prop(common.PropertyCheck):
         yield {'k': 'combo', 'rows': [first, other, dict(first, file='s1.fcs'), dict(other, file='t1.fcs'), dict(first, file='nope.fcs'), other]}
         yield {'k': 'combo', 'rows': [other, first, dict(first, units={'FL1': '   ', 'FL2': None, 'FL3': None}), dict(other, file='t1.fcs'),
                                       dict(first, units={'FL1': 'RFI', 'FL2': ' \t ', 'FL3': None}), first]}
+        yield {'k': 'combo', 'cwd_decoy': True, 'rows': [first, dict(first, file='decoy.fcs'), dict(first, file='s1.fcs'), dict(first, file='decoy.fcs', units={'FL1': 'RFI', 'FL2': None, 'FL3': None})]}
         # without the optional beads table
         yield {'k': 'combo', 'no_table': True, 'rows': [first, dict(first, units={'FL1': None, 'FL2': None, 'FL3': 'MEF'}), dict(first, beads='BFAIL'), first,
                                                         dict(first, units={'FL1': 'MEF', 'FL2': 'MEF', 'FL3': 'mef'}), dict(first, file='nope.fcs')]}
@@ -232,7 +234,16 @@ class Prop(common.PropertyCheck):
                 res = FlowCal.excel_ui.process_samples_table(st, s.instruments, mef_transform_fxns=s.fxns, beads_table=s.beads_table, base_dir=s.ex.dir)
                 bres = FlowCal.excel_ui.process_beads_table(excelgen.table([], columns=['Instrument ID', 'File Path', 'Gate Fraction', 'Clustering Channels']),
                                                             s.instruments, base_dir=s.ex.dir)
-                return {'empty': len(res) == 0 and len(bres[0]) == 0 and len(bres[1]) == 0}
+                ok = len(res) == 0 and len(bres[0]) == 0 and len(bres[1]) == 0
+                # the same with progress messages switched on (what run() and the command line do)
+                import contextlib, io as _io
+                for fo in (False, True):
+                    with contextlib.redirect_stdout(_io.StringIO()):
+                        r2 = FlowCal.excel_ui.process_samples_table(st, s.instruments, mef_transform_fxns=s.fxns, beads_table=s.beads_table, base_dir=s.ex.dir, verbose=True)
+                        b2 = FlowCal.excel_ui.process_beads_table(excelgen.table([], columns=['Instrument ID', 'File Path', 'Gate Fraction', 'Clustering Channels']),
+                                                                  s.instruments, base_dir=s.ex.dir, verbose=True, full_output=fo)
+                    ok = ok and len(r2) == 0 and all(len(x) == 0 for x in b2)
+                return {'empty': ok}
             if case['k'] == 'beads':
                 rows = [excelgen.beads_row('G1', 'FC001', 'beads1.fcs', channels=('FL1',)),
                         excelgen.beads_row('F1', 'FC001', 'nope.fcs', channels=('FL1',)),
@@ -308,7 +319,20 @@ class Prop(common.PropertyCheck):
             if case['k'] == 'combo':
                 rows = [excelgen.sample_row('R%d' % i, r.get('iid', 'FC001'), r['file'], {c: u for c, u in r['units'].items() if u is not None}, r['beads'],
                                             gate_fraction=0.85 if r['gate'] == 'ok' else 1.5) for i, r in enumerate(case['rows'])]
-                st, res = s.process(rows, no_table=bool(case.get('no_table')), bare_table=bool(case.get('bare_table')))
+                if case.get('cwd_decoy'):
+                    # 'decoy.fcs' does not exist in the folder of the table; a file of that name lies in the current working directory
+                    import shutil, tempfile
+                    wd = tempfile.mkdtemp(prefix='verif_c11_wd_')
+                    shutil.copy(os.path.join(s.ex.dir, 's0.fcs'), os.path.join(wd, 'decoy.fcs'))
+                    old_cwd = os.getcwd()
+                    os.chdir(wd)
+                    try:
+                        st, res = s.process(rows)
+                    finally:
+                        os.chdir(old_cwd)
+                        shutil.rmtree(wd, ignore_errors=True)
+                else:
+                    st, res = s.process(rows, no_table=bool(case.get('no_table')), bare_table=bool(case.get('bare_table')))
                 out = {'ids': list(res.keys()),
                        'faults': [fault_of(str(v)) if isinstance(v, FlowCal.excel_ui.ExcelUIException) else 'none' for v in res.values()], 'same_as_single': []}
                 # every healthy row equals its own single-row run
